@@ -158,6 +158,8 @@ type Chain struct {
 	Spare    []Acct // extra master candidates that governance txs may add
 	poor     Acct   // an account without VET / VTHO
 	gen      *genesis.Genesis
+	lastUps  []scheduler.Proposer
+	queued   map[int]bool // masters whose validation has been queued / is active in the staker
 }
 
 func newAcct(r *hx.Rand) Acct {
